@@ -17,7 +17,7 @@ inductive CStep where
 
 /-- statements of `FileSink._close_file` -/
 inductive CloseStep where
-  | flush | close | resetFile | resetPath | resetDev | resetIno
+  | bindFile | flush | close | resetFile | resetPath | resetDev | resetIno
   deriving DecidableEq, Repr
 
 /-- phases of `FileSink._terminate_file` -/
